@@ -97,27 +97,33 @@ def newTables : List Stmt → List ClassB
 def KindsDistinct (u : UC) (cs : List ClassB) : Prop := (cs.map fun c => u.upper c.kind).Nodup
 
 theorem popClasses_ok (u : UC) : ∀ (stmts : List Stmt) (s : BState), KindsDistinct u (s.classes ++ newTables stmts) →
+    (∀ c ∈ newTables stmts, attrNamesOk u c.attrs = true) →
     popClasses u stmts s = .ok { s with classes := s.classes ++ newTables stmts } := by
   intro stmts
   induction stmts with
-  | nil => intro s _; simp [popClasses, newTables]
+  | nil => intro s _ _; simp [popClasses, newTables]
   | cons st rest ih =>
-    intro s hd
+    intro s hd hn
     cases st with
     | createTable kind attrs =>
-      simp only [newTables] at hd ⊢
+      simp only [newTables] at hd hn ⊢
+      have hnames : attrNamesOk u attrs = true := hn ⟨kind, attrs, [], [], []⟩ (by simp)
       have hnone : s.find? u kind = none := by
         apply find?_none_of_forall
         intro c hc
         simp only [KindsDistinct, List.map_append, List.map_cons] at hd
         have := (List.nodup_append.mp hd).2.2 (u.upper c.kind) (List.mem_map.mpr ⟨c, hc, rfl⟩) (u.upper kind) (by simp)
         simp only [sameKind, beq_eq_false_iff_ne]; exact this
-      simp only [popClasses, defineClass, hnone]
+      simp only [popClasses, defineClass, hnone, hnames, if_true]
       have := ih { s with classes := s.classes ++ [⟨kind, attrs, [], [], []⟩] } (by simpa [List.append_assoc] using hd)
+        (fun c hc => hn c (by simp [hc]))
       simpa [List.append_assoc] using this
-    | createRop _ _ _ _ _ _ _ _ _ => simpa [popClasses, newTables] using ih s (by simpa [newTables] using hd)
-    | createIndex _ _ _ => simpa [popClasses, newTables] using ih s (by simpa [newTables] using hd)
-    | insert _ _ _ => simpa [popClasses, newTables] using ih s (by simpa [newTables] using hd)
+    | createRop _ _ _ _ _ _ _ _ _ =>
+      simpa [popClasses, newTables] using ih s (by simpa [newTables] using hd) (by simpa [newTables] using hn)
+    | createIndex _ _ _ =>
+      simpa [popClasses, newTables] using ih s (by simpa [newTables] using hd) (by simpa [newTables] using hn)
+    | insert _ _ _ =>
+      simpa [popClasses, newTables] using ih s (by simpa [newTables] using hd) (by simpa [newTables] using hn)
 
 /-! ### phase 2 -/
 
@@ -285,6 +291,7 @@ theorem popInstances_ok (u : UC) : ∀ (stmts : List Stmt) (s : BState), KindsDi
       obtain ⟨c0, hf, hm0, hk0⟩ := find?_some_of_mem u s kind hex
       obtain ⟨hrow, hcells⟩ := hall c0 hm0 hk0
       have hens : ensureClass u s kind false (names.getD []) values = s := by simp [ensureClass, hf]
+      have hinf : inferOk u s kind false (names.getD []) values = true := by simp [inferOk, hf]
       have hstep : (s.update u kind (fun c => { c with rows := c.rows ++ [specCells u c0 c0.attrs values] })).classes =
           s.classes.map (fun c => instStep u c (.insert kind values names)) := by
         rw [update_eq_map]
@@ -297,7 +304,7 @@ theorem popInstances_ok (u : UC) : ∀ (stmts : List Stmt) (s : BState), KindsDi
         · simp [hk]
       have hpop : popInstance u s kind values names =
           .ok (s.update u kind (fun c => { c with rows := c.rows ++ [specCells u c0 c0.attrs values] })) := by
-        simp only [popInstance, hnamed, Bool.false_and, Bool.false_eq_true, if_false, hens, hf, hrow, Bool.not_true,
+        simp only [popInstance, hnamed, Bool.false_and, Bool.false_eq_true, if_false, hinf, hens, hf, hrow, Bool.not_true,
           cellsOf, positionalCells_ok u c0 c0.attrs values hcells]
       simp only [popInstances, hpop]
       have hd' : KindsDistinct u (s.classes.map (fun c => instStep u c (.insert kind values names))) := by
@@ -325,12 +332,14 @@ theorem popInstances_ok (u : UC) : ∀ (stmts : List Stmt) (s : BState), KindsDi
 
 /-! ### the whole build -/
 
-/-- the well-formedness of a statement list under which `build` succeeds: class names distinct after upper-casing;
+/-- the well-formedness of a statement list under which `build` succeeds: class names distinct after upper-casing,
+    and so are the attribute names within each class;
     identifiers (with attributes) and associations name declared classes, key lists of equal length, target keys
     attributes of the target class; every INSERT is positional, into a declared class whose attribute types are core
     types, with values that can be read for the type of their column -/
 structure BuildOk (u : UC) (stmts : List Stmt) : Prop where
   distinct : KindsDistinct u (newTables stmts)
+  attrNames : ∀ c ∈ newTables stmts, attrNamesOk u c.attrs = true
   idents : ∀ kind name attrs, Stmt.createIndex kind name attrs ∈ stmts → attrs ≠ [] →
     ∃ c ∈ newTables stmts, sameKind u c.kind kind = true
   rops : ∀ rel sk sc skeys sp tk tc tkeys tp, Stmt.createRop rel sk sc skeys sp tk tc tkeys tp ∈ stmts →
@@ -358,7 +367,7 @@ theorem builtClass_attrs (u : UC) (stmts : List Stmt) (c : ClassB) : (builtClass
 theorem build_ok (u : UC) (stmts : List Stmt) (h : BuildOk u stmts) :
     build u stmts = .ok { classes := (newTables stmts).map (builtClass u stmts), assocs := ropsOf stmts } := by
   unfold build
-  have h1 := popClasses_ok u stmts BState.empty (by simpa [BState.empty] using h.distinct)
+  have h1 := popClasses_ok u stmts BState.empty (by simpa [BState.empty] using h.distinct) h.attrNames
   simp only [BState.empty, List.nil_append] at h1
   simp only [BState.empty, h1]
   -- phase 2
